@@ -143,6 +143,8 @@ def write(
         "written_at_unix": int(time.time()),
     }
     path = os.path.join(VERIF, "evidence", f"{pid}.json")
+    if os.environ.get("HV_NO_EVIDENCE"):  # sensitivity runs against scratch copies must not touch evidence
+        return "(evidence not written: HV_NO_EVIDENCE)"
     os.makedirs(os.path.dirname(path), exist_ok=True)
     tmp = path + ".tmp"
     with open(tmp, "w") as f:
